@@ -312,3 +312,12 @@ func typeIs[T any](x any, _ T) bool { return true }
 //@ func Association.handleInbound
 //@   at call Association.handleChunksStart assert#only-verified-packets{C13} err == nil
 //@   at call Association.handleChunk assert#only-verified-packets2{C13} err == nil
+
+//@ func newReceivePayloadQueue
+//@   requires#size 1 <= maxTSNOffset && maxTSNOffset <= 40000
+//@   loop 1 invariant#pow2 words >= 1 && words&(words-1) == 0 && (words == 1 || words/2 < maxTSNOffset/64) && maxTSNOffset <= 40064 && maxTSNOffset%64 == 0 && maxTSNOffset >= old(maxTSNOffset)
+//@   ensures rpqInv(result)
+//@   ensures rpqCount(result)
+//@   ensures#empty result.chunkSize == 0 && result.maxTSNOffset >= maxTSNOffset && result.maxTSNOffset <= 40000+63
+//@   tags C05 C11 C16
+//@   safety C03
